@@ -449,6 +449,25 @@ func (b *Bessd) WaitQuiet(max time.Duration) bool {
 	return false
 }
 
+// WaitDrained waits until no client is connected and nothing a departed client sent is still
+// being served (the event counter stands still for 10 ms).
+func (b *Bessd) WaitDrained(max time.Duration) bool {
+	deadline := time.Now().Add(max)
+	for time.Now().Before(deadline) {
+		if b.conns.Load() == 0 && b.inflight.Load() == 0 {
+			ev := Events.Load()
+			n := b.LogLen()
+			time.Sleep(10 * time.Millisecond)
+			if b.conns.Load() == 0 && b.inflight.Load() == 0 && Events.Load() == ev && b.LogLen() == n {
+				return true
+			}
+			continue
+		}
+		time.Sleep(500 * time.Microsecond)
+	}
+	return false
+}
+
 // Snap returns the current tables.
 func (b *Bessd) Snap() Snapshot {
 	b.mu.Lock()
